@@ -285,3 +285,54 @@ func thinCases(cs []Case, k int) []Case {
 	}
 	return out
 }
+
+// apiCaseAsset is apiCase with another asset for the %N/%C/%K variables.
+func apiCaseAsset(prop, tag string, stmts []string, extra map[string][2]string, asset string) Case {
+	script, spec := instantiate(stmts, asset, extra)
+	return Case{ID: prop + " " + strings.ReplaceAll(script, "\n", " "), Pkg: "", Fn: "ZZAPI", Args: []string{prop, script, spec}, Tag: tag}
+}
+
+// mixCases: features of the language meeting each other - an asset with a precision
+// suffix, asset and number variables inside a monetary literal, single-element
+// collections, one account or variable in two roles, deep nesting, a send-all feeding
+// a nested destination, a second asset next to the first.
+func mixCases(prop string) []Case {
+	var cases []Case
+	tag := "feature-mix"
+	add := func(stmts []string, extra map[string][2]string) {
+		cases = append(cases, apiCase(prop, tag, stmts, extra))
+	}
+	// precision suffix
+	for _, st := range [][]string{
+		{sendFixed("USD/2", "{ @a @b }", "{ max %C to @d remaining to @e }")},
+		{sendAll("USD/2", "{ @a @b allowing overdraft up to %K }", "{ 1/3 to @d 2/3 kept }")},
+		{"save %N from @a", sendFixed("USD/2", "{ max %C from @a @world }", "@d")},
+	} {
+		cases = append(cases, apiCaseAsset(prop, tag+"/precision-asset", st, nil, "USD/2"))
+	}
+	av := map[string][2]string{"as": {"asset", "asset:USD"}, "n": {"number", "num"}}
+	add([]string{"send [$as $n] (\n  source = { @a @b }\n  destination = { max [$as $n] to @d remaining to @e }\n)"}, av)
+	add([]string{"send [$as *] (\n  source = { @a max [$as $n] from @b }\n  destination = { max [$as $n] kept remaining to @d }\n)"}, av)
+	add([]string{"save [$as $n] from @a", "send [$as $n] (\n  source = @a allowing overdraft up to [$as $n]\n  destination = @d\n)"}, av)
+	// single-element collections
+	add([]string{sendFixed("USD", "{ @a }", "{ remaining to @d }")}, nil)
+	add([]string{sendFixed("USD", "{ max %C from @a }", "{ 100% to @d }")}, nil)
+	add([]string{sendAll("USD", "{ @a }", "{ max %C to @d remaining kept }")}, nil)
+	add([]string{sendFixed("USD", "{ 1/1 from @a }", "{ 1/1 to @d }")}, nil)
+	add([]string{sendFixed("USD", "{ { @a } { @b } }", "{ remaining kept }")}, nil)
+	// one account / variable in two roles
+	xv := map[string][2]string{"x": {"account", "acc:a"}}
+	add([]string{sendFixed("USD", "{ $x @b }", "{ max %C to @b remaining to $x }")}, xv)
+	add([]string{sendFixed("USD", "{ @a @b }", "{ max %C to @a remaining to @b }")}, nil)
+	add([]string{sendAll("USD", "{ $x @a @b }", "$x")}, xv)
+	add([]string{sendFixed("USD", "@world", "$x"), sendFixed("USD", "$x", "@d")}, xv)
+	// deep nesting
+	add([]string{sendFixed("USD", "{ 1/2 from { max %C from { @a @b } @c } remaining from @a }", "@d")}, nil)
+	add([]string{sendFixed("USD", "max %C from { @a allowing overdraft up to %K max %C from { @b @a } }", "{ max %C to { 1/2 to @d 1/2 kept } remaining to @e }")}, nil)
+	add([]string{sendAll("USD", "{ max %C from { @a @b } @a }", "{ 1/2 to { max %C to @d remaining kept } 1/2 to { 1/2 to @e 1/2 to @d } }")}, nil)
+	// a second asset next to the first
+	add([]string{sendFixed("USD", "{ @a @b }", "@d"), "send [EUR/2 *] (\n  source = { @a @d }\n  destination = { 1/2 to @b 1/2 kept }\n)", sendAll("USD", "@d", "@a")}, nil)
+	// statement kinds following each other
+	add([]string{"set_tx_meta(\"k\", 1)", sendFixed("USD", "@a", "@d"), "set_account_meta(@a, \"k\", @d)", "save [USD *] from @a", sendFixed("USD", "{ @a @world }", "@e")}, nil)
+	return cases
+}
